@@ -65,3 +65,14 @@ Print Assumptions C04_type_trees_are_well_typed.
 Theorem C04_recovered_type_trees_are_well_typed : forall t, wt schema ifaces (rty_tree t) = true.
 Proof. exact wt_rty. Qed.
 Print Assumptions C04_recovered_type_trees_are_well_typed.
+
+(* the statement family (Parse/StmtModel.v): whatever parseDDL / parseStatement return on it -- the node of an accepted statement with its
+   child nodes and lists, or a BadDDL / BadStatement holding tokens -- is well typed against the schema regenerated from ast/ast.go *)
+From Verif Require Import Parse.StmtModel Parse.StmtWellTyped.
+Theorem C04_family_ddl_trees_are_well_typed : forall ts d r e, sp_ddl ts = Some (d, r, e) -> wt schema ifaces (dnode_tree d) = true.
+Proof. exact sp_ddl_wt. Qed.
+Print Assumptions C04_family_ddl_trees_are_well_typed.
+
+Theorem C04_family_statement_trees_are_well_typed : forall ts d r e, sp_stmt ts = Some (d, r, e) -> wt schema ifaces (dnode_tree d) = true.
+Proof. exact sp_stmt_wt. Qed.
+Print Assumptions C04_family_statement_trees_are_well_typed.
